@@ -78,6 +78,8 @@ func profileFor(check, tier, variant string) *CheckDef {
 		d.MinOps, d.MaxOps = 420, 470
 		d.FSOnly, d.Images, d.NoMerge = true, true, true
 		d.PostRun = snapPostRun
+	case "C13":
+		d.Special = c13Special
 	case "selftest":
 		d.MinClients, d.MaxClients = 1, 4
 		d.MinOps, d.MaxOps = 3, 10
